@@ -289,7 +289,7 @@ def solve_sub(sub, expect="unsat", thorough=False):
         log.append(("z3-5.1/ground-instances", r0, round(dt0, 3)))
         if r0 == "unsat":
             return {"status": "unsat", "backend": "z3-5.1/ground-instances", "time": total, "model": None, "log": log}
-    r, dt, model = _z3_api(sub["full"], T_Z3, want_model=True)
+    r, dt, model = _z3_api(sub["full"], 2000 if expect == "sat" else T_Z3, want_model=True)
     total += dt
     log.append(("z3-5.1", r, round(dt, 3)))
     if expect == "sat":
